@@ -430,6 +430,11 @@ func contains(set []int, x int) bool {
 }
 
 func (r *runner) runDmg(c *caseRec) {
+	r.sizes, r.insLen = nil, 0
+	if c.Boundary > 0 && !r.align(c) {
+		r.res.BoundaryNA++
+		return
+	}
 	l, err := r.buildLog(c)
 	if err != nil {
 		r.res.Errors = append(r.res.Errors, c.ID+": "+err.Error())
@@ -488,6 +493,9 @@ func (r *runner) runDmg(c *caseRec) {
 		r.res.Errors = append(r.res.Errors, c.ID+": "+err.Error())
 		return
 	}
+	if c.Boundary > 0 && len(files) > 1 {
+		files = files[:1] // the one the sizes were aligned for
+	}
 	want := modelState(l, c.Surv)
 	for fi, f := range files {
 		if bytes.Equal(f.data, l.bytes) {
@@ -517,6 +525,9 @@ func (r *runner) runDmg(c *caseRec) {
 			return
 		}
 		r.res.Files++
+		if c.Boundary > 0 {
+			r.res.BoundaryHits[fmt.Sprintf("%d:%+d", c.Boundary, c.Delta)]++
+		}
 		for _, k := range c.Dmg {
 			r.res.Kinds[k.K]++
 		}
